@@ -9,6 +9,12 @@ from framework import ProbeCrashed
 CHUNK = 150          # cases per probe process: the gauge registry is process-global and only grows
 
 
+def pre(chk):
+    """Regenerate coq/gen/JsonTags.v (struct tags of the served protocol structs; the functions that send a delete request to
+    storage with the httpserver.Delete*Metrics calls they make) from /repo before the proof obligations are checked."""
+    C.write_gen("JsonTags", C.run_translator("jsontags"))
+
+
 def run_chunks(chk, cases, name):
     impl, model, mism = [], [], []
     for k in range(0, len(cases), CHUNK):
@@ -113,7 +119,12 @@ def run(chk, failed):
                 chk.violation("corr_%d" % i, obj, found_input=False)
     if failed and not oracle_bad and not mism:
         found = search_neighbourhood(chk, cases[len(cases) // 2])
-        obj = {"kind": "theorem", "broken": [nm for nm, _ in failed], "detail": [dt[-1500:] for _, dt in failed]}
+        obj = {"kind": "theorem", "broken": [nm for nm, _ in failed], "detail": [dt[-1500:] for _, dt in failed][:2]}
+        try:
+            gen = open(os.path.join(C.COQ, "gen", "JsonTags.v")).read()
+            obj["table:delete-sites (gen/JsonTags.v, regenerated from the tree)"] = [ln.strip() for ln in gen.splitlines() if "mkSite" in ln]
+        except OSError:
+            pass
         if found:
             obj.update({"case": found[0], "impl_output": found[1], "oracle_verdict": found[2]})
             chk.violation("obligation", obj)
@@ -130,7 +141,8 @@ def run(chk, failed):
         "gauge values are float64: model integers are compared after the same conversion (exact below 2^53)",
         "group allow/deny lists are not configured (C10's subject)",
     ]
-    chk.trusted += ["prometheus client_golang v1.20.5 GaugeVec.With/Set/Delete/DeletePartialMatch and the text exposition as modelled "
+    chk.trusted += ["translator /verif/translator/jsontags (go/ast walk) for gen/JsonTags.v",
+                    "prometheus client_golang v1.20.5 GaugeVec.With/Set/Delete/DeletePartialMatch and the text exposition as modelled "
                     "(Metrics.reg_set / vec_delete / vec_delete_partial); net/http; encoding/json"]
 
 
@@ -184,6 +196,7 @@ def replay(path):
     import framework
     obj = json.load(open(path))
     chk = framework.Check("C17", "quick", int(obj.get("seed", 1)))
+    pre(chk)
     C.build_coq()
     case = obj["case"]
     impl, model, mism = chk.differential("metrics", "metrics", "TestVerifProbeMetrics", [case], name="replay", project=G.project)
